@@ -43,7 +43,8 @@ TAG_OF = {'str': 'str', 'int': 'int', 'float': 'float', 'bool': 'bool', 'none': 
 
 def BOUNDS(tier):
     return {'sequence_depth': 4 if tier == 'quick' else 5, 'keys': KEYS, 'values': list(VALS) + ['NODE'],
-            'scalar_spelling_maxlen': 3 if tier == 'quick' else 4}
+            'scalar_spelling_maxlen': 3 if tier == 'quick' else 4,
+            'defaults_history_depth': 3 if tier == 'quick' else 4, 'defaults_history_families': len(hist_families())}
 
 
 def ops(state):
@@ -410,12 +411,84 @@ def defaults_cases(res):
                                       'removed' if removed else 'kept'), payload)
 
 
+# ---------------------------------------------------------------- histories over classes that share one __init__
+
+HIST_TABLES = [(), ('x',), ('y',), ('x', 'y')]        # which parameters a class's own _yatiml_defaults overrides
+HIST_CLASSES = ('B', 'D1', 'D2')                      # D1(B), D2(D1); __init__ is B's in all three
+
+
+def hist_family(tabs):
+    """fresh classes for one family: tabs[i] = overridden parameters of class i, or None = the class has no table of
+    its own (it inherits the attribute of its base, as Python says)"""
+    class B:
+        def __init__(self, req: int, x: str = 'sx', y: str = 'sy') -> None:
+            pass
+    D1 = type('D1', (B,), {})
+    D2 = type('D2', (D1,), {})
+    classes = {'B': B, 'D1': D1, 'D2': D2}
+    for name, tab in zip(HIST_CLASSES, tabs):
+        if tab is not None:
+            classes[name]._yatiml_defaults = {p: 't%s_%s' % (p, name) for p in tab}
+    return classes
+
+
+def hist_default(classes, name, p):
+    c = classes[name]
+    return getattr(c, '_yatiml_defaults', {}).get(p, 's' + p)
+
+
+def defaults_history_cases(tabs, depth, res):
+    """every sequence of <= depth remove_attributes_with_default_values() calls over the three classes of the family
+    (fresh classes per sequence, so a memo keyed by the shared __init__ or by a class starts empty); the last call is
+    made on every (x, y) value pair over the signature defaults and all override values, and must remove exactly the
+    attributes equal to the defaults of the class that was passed - whatever classes were looked at before"""
+    xs = ['sx'] + ['tx_' + c for c in HIST_CLASSES]
+    ys = ['sy'] + ['ty_' + c for c in HIST_CLASSES]
+    for n in range(1, depth + 1):
+        for seq in itertools.product(HIST_CLASSES, repeat=n):
+            res.states += 1
+            for vx in xs:
+                for vy in ys:
+                    classes = hist_family(tabs)
+                    doc = ('m', P + 'map', ((('s', P + 'str', 'req'), ('s', P + 'int', '3')), (('s', P + 'str', 'x'), ('s', P + 'str', vx)),
+                                           (('s', P + 'str', 'y'), ('s', P + 'str', vy))))
+                    payload = {'kind': 'defaults-history', 'tables': [list(t) if t is not None else None for t in tabs],
+                               'sequence': list(seq), 'x': vx, 'y': vy}
+                    res.transitions += 1
+                    res.traces += 1
+                    try:
+                        for c in seq[:-1]:
+                            yatiml.Node(to_node(doc)).remove_attributes_with_default_values(classes[c])
+                        node = yatiml.Node(to_node(doc))
+                        node.remove_attributes_with_default_values(classes[seq[-1]])
+                    except Exception as e:     # noqa
+                        res.violation('C14:defaults-history:raises-' + type(e).__name__, 'sequence %s raised %s: %s' % (seq, type(e).__name__, e), payload)
+                        continue
+                    left = [k[2] for k, v in view(node.yaml_node)[2]]
+                    want = ['req'] + [p for p, v in (('x', vx), ('y', vy)) if v != hist_default(classes, seq[-1], p)]
+                    res.hist['defaults-history:' + ('removed' if len(left) < 3 else 'kept')] += 1
+                    if len(left) < 3 and n > 1:
+                        res.nontrivial += 1
+                    if left != want:
+                        res.violation('C14:defaults-history:' + ('first-call' if n == 1 else 'depends-on-earlier-calls'),
+                                      'classes B, D1(B), D2(D1) share __init__(req, x=\'sx\', y=\'sy\'), own _yatiml_defaults override %s; '
+                                      'after looking at %s, remove_attributes_with_default_values(%s) on {x: %s, y: %s} leaves %s, '
+                                      'the defaults of %s are x=%s y=%s so %s should be left' % (
+                                          dict(zip(HIST_CLASSES, tabs)), list(seq[:-1]), seq[-1], vx, vy, left, seq[-1],
+                                          hist_default(classes, seq[-1], 'x'), hist_default(classes, seq[-1], 'y'), want), payload)
+
+
+def hist_families():
+    return [tabs for tabs in itertools.product(HIST_TABLES, [None] + HIST_TABLES, [None] + HIST_TABLES)]
+
+
 # ---------------------------------------------------------------- driver
 
 def units(tier):
     b = BOUNDS(tier)
     out = [('bfs', i) for i in range(len(INITS))]
     out += [('setvalue',), ('defaults',), ('intforms',)]
+    out += [('defaults-history', i) for i in range(0, len(hist_families()), 10)]
     L = b['scalar_spelling_maxlen']
     for name, alpha in (('num', C09.NUM_ALPHA), ('word', C09.WORD_ALPHA)):
         for a in alpha:
@@ -437,6 +510,10 @@ def run_unit(unit, tier):
         return res
     if unit[0] == 'defaults':
         defaults_cases(res)
+        return res
+    if unit[0] == 'defaults-history':
+        for tabs in hist_families()[unit[1]:unit[1] + 10]:
+            defaults_history_cases(tabs, BOUNDS(tier)['defaults_history_depth'], res)
         return res
     if _LD is None:
         load = yatiml.load_function()
@@ -487,6 +564,10 @@ def replay(payload):
     elif k in ('set_value', 'set_attribute', 'classify'):
         set_value_cases(res)
         res.violations = [v for v in res.violations if v['replay'] == payload or k == 'classify']
+    elif k == 'defaults-history':
+        tabs = tuple(tuple(t) if t is not None else None for t in payload['tables'])
+        defaults_history_cases(tabs, len(payload['sequence']), res)
+        res.violations = [v for v in res.violations if v['replay'] == payload]
     else:
         defaults_cases(res)
         res.violations = [v for v in res.violations if all(v['replay'].get(f) == payload.get(f) for f in ('default_index', 'value_index', 'override'))]
